@@ -180,6 +180,7 @@ def run(ctx):
                     ctx.fail("correspondence", f"c19:add_charges_default:{sid}", f"add_charges disagrees {rq}: real={a} model={b}", case={"sym": sid, "req": rq})
         # ---------------- Leg ---------------------------------------------------------------
         run_legs(ctx, sid, sym, ms, B)
+        run_fused_legs(ctx, sid, sym, ms, B)
 
 
 def leg_args(rng, ms, B, nsym):
@@ -276,6 +277,69 @@ def run_legs(ctx, sid, sym, ms, B):
                 kind = ("signature" if "Signature" in err else "dims" if "positive" in err else "count" if "do not match" in err
                         else "range" if "outside" in err else "repeated" if "Repeated" in err else "other")
                 ctx.count(f"leg-errkind:{'agree' if kind == r.get('err') else 'differ'}")
+
+
+def run_fused_legs(ctx, sid, sym, ms, B):
+    """legs reported for fused tensors (hard fusion history, LegMeta of meta fusion, nested): conj maps onto the dual space and is an
+    involution, agrees with the legs of the conjugate tensor, charges canonical and sorted, and a tensor initialised on the reported
+    legs reports the same legs"""
+    import yastn
+    from harness import tgen
+    rng = ctx.rng
+    name = next((n for n in tgen.SYM_NAMES if tgen.sym_class(n).SYM_ID == sid), None)
+    if name is None:
+        return
+    cfg = tgen.make_cfg(name)
+    for _ in range(25 if ctx.quick else 300):
+        nd = rng.randint(2, 4)
+        legs = [tgen.rand_leg(rng, cfg, name, max_sectors=3, max_dim=2) for _ in range(nd)]
+        a = tgen.rand_tensor(rng, cfg, name, legs, drop=0.2, allow_empty=False)
+        if a.size == 0:
+            continue
+        recipe = []
+        for _d in range(rng.randint(1, 2)):
+            if a.ndim < 2:
+                break
+            order = list(range(a.ndim)); rng.shuffle(order)
+            k = rng.randint(2, a.ndim)
+            axes = (tuple(order[:k]),) + tuple(order[k:])
+            mode = rng.choice(["meta", "hard", "meta"])
+            a = a.fuse_legs(axes=axes, mode=mode); recipe.append([mode, [list(axes[0])] + list(axes[1:])])
+        ac = a.conj()
+        case = {"sym": sid, "recipe": recipe, "s": list(a.struct.s)}
+        ctx.case({"part": "fused-legs", "sym": sid, "recipe": [r[0] for r in recipe]})
+        for ax in range(a.ndim):
+            l = a.get_legs(ax)
+            kind = "meta" if hasattr(l, "legs") else "hard" if l.is_fused() else "plain"
+            ctx.count(f"fused-leg:{kind}")
+            try:
+                c = l.conj()
+                bad = []
+                if c.s != -l.s:
+                    bad.append(f"conj().s = {c.s} for s = {l.s}")
+                if c.conj() != l:
+                    bad.append("conj is not an involution")
+                if c != ac.get_legs(ax):
+                    bad.append("conj() of the leg differs from the leg of the conjugate tensor")
+                if tuple(c.t) != tuple(l.t) or tuple(c.D) != tuple(l.D):
+                    bad.append("conj changes charges or dimensions")
+                # (a LegMeta lists tuples of the charges of its native legs; canonical range is a statement about the native legs)
+                natives = list(l.legs) if kind == "meta" else [l]
+                if len(set(l.t)) != len(l.t) or not all(d > 0 for d in l.D):
+                    bad.append(f"repeated sectors or non-positive dimensions: t={l.t} D={l.D}")
+                for nl in natives:
+                    if list(nl.t) != sorted(nl.t) or len(set(nl.t)) != len(nl.t) or not all(canon_ok(ms, list(t)) for t in nl.t) or not all(d > 0 for d in nl.D):
+                        bad.append(f"charges not canonical / sorted / unique or dimensions not positive: t={nl.t} D={nl.D}")
+            except Exception as e:  # noqa: BLE001
+                bad = [f"{type(e).__name__}: {e}"]
+            if bad:
+                ctx.fail("oracle", f"c19:fused-leg:{kind}:{sid}", f"{kind} leg {ax} of a tensor fused by {recipe}: {'; '.join(bad)}", case=dict(case, axis=ax), concrete=True)
+        try:
+            z = yastn.zeros(cfg, legs=a.get_legs(), n=a.n)
+            if z.get_legs() != a.get_legs() and len(z.struct.t) == len(a.struct.t):
+                ctx.fail("oracle", f"c19:fused-leg:reinit:{sid}", f"a tensor initialised on the legs reported for a fused tensor reports different legs ({recipe})", case=case, concrete=True)
+        except Exception as e:  # noqa: BLE001
+            ctx.fail("oracle", f"c19:fused-leg:reinit:{sid}", f"zeros(legs=a.get_legs()) raised {type(e).__name__}: {e} ({recipe})", case=case, concrete=True)
 
 
 def search(ctx, broken, budget):
